@@ -4,7 +4,7 @@
    PARTIAL BY DESIGN (DESIGN section 4, C08): the theorems are about exact real arithmetic and about index logic;
    floating-point accuracy, LAPACK and libm are tested with stated tolerances by checks/C08.py, not proved. *)
 From Coq Require Import Reals List ZArith Bool.
-From DuneV Require Import C08_Model C08_Spec C08_Proofs C08_Proofs_Handover C08_Proofs_2x2 C08_Proofs_3x3.
+From DuneV Require Import C08_Model C08_Spec C08_Proofs C08_Proofs_Handover C08_Proofs_2x2 C08_Proofs_3x3 C08_Proofs_Eig0.
 Import ListNotations.
 
 (* eigenvalue-only and eigenvalue+vector entry points run the same eigenvalue computation: for EVERY operation
@@ -177,3 +177,26 @@ Proof. exact P_smith3_partial. Qed.
 Print Assumptions C08_3x3_eigenvalues_partial.
 Example C08_3x3_eigenvalues_nonvacuous : 0 < 1 * 1 + 0 * 0 + 0 * 0 /\ -1 <= c08_smith3_r 0 1 0 0 0 0 <= 1.
 Proof. exact P_ex_smith3. Qed.
+
+(* ---------------------------------------------------------------------------------------------- 3x3 eigenvector, Impl::eig0
+   For ANY real 3x3 matrix A and eigenvalue l with rank(A - l I) = 2 (a simple eigenvalue of a symmetric matrix), the
+   running-maximum selection of eig0 picks the row pair with the LARGEST cross product (the documented robustness rule; in
+   floating point the other pairs may be pure round-off, cf. mutants/C08/m8), that length is positive, and the normalised
+   cross product v satisfies (A - l I) v = 0, v.v = 1.
+   PARTIAL w.r.t. C08_3x3_exact: eig1/orthoComp (second and third vector, double eigenvalues) are not modelled, and the 3x3
+   path is tied to the code by the tolerance TESTS only (structured stream `struct3:*` of checks/C08.py). *)
+Theorem C08_3x3_eigvec_partial : forall (A : c08_mat3) (l : R),
+  c08_det3m (c08_shift3 A l) = 0 ->
+  (let '(r0, r1, r2) := c08_shift3 A l in
+   ~ (is_zero3 (c08_cross r0 r1) /\ is_zero3 (c08_cross r0 r2) /\ is_zero3 (c08_cross r1 r2))) ->
+  let '(imax, v) := c08_eig0 A l in
+  let '(d0, d1, d2) := c08_eig0_d A l in
+  c08_mv3 (c08_shift3 A l) v = (0, 0, 0) /\ c08_dot3 v v = 1 /\
+  nth imax (d0 :: d1 :: d2 :: nil) 0 = Rmax d0 (Rmax d1 d2) /\ 0 < Rmax d0 (Rmax d1 d2).
+Proof. exact P_eig0. Qed.
+Print Assumptions C08_3x3_eigvec_partial.
+Example C08_3x3_eigvec_nonvacuous : c08_det3m (c08_shift3 c08_ex_A3 (-5)) = 0 /\
+  (let '(r0, r1, r2) := c08_shift3 c08_ex_A3 (-5) in
+   ~ (is_zero3 (c08_cross r0 r1) /\ is_zero3 (c08_cross r0 r2) /\ is_zero3 (c08_cross r1 r2))) /\
+  fst (c08_eig0 c08_ex_A3 (-5)) = 1%nat.
+Proof. exact P_ex_eig0. Qed.
